@@ -73,7 +73,7 @@ Definition matrix_update (c : csm S) (es : list (pidx * pidx * T S)) : option (g
              if (i <? 0)%Z || (j <? 0)%Z then Some (inl GInvalidArgument)
              else go t ((Z.to_nat i, Z.to_nat j, v) :: acc)
                      (Nat.max rows (Datatypes.S (Z.to_nat i))) (Nat.max cols (Datatypes.S (Z.to_nat j)))
-         | _, _ => Some (inl GUnknown)
+         | _, _ => Some (inl GInvalidArgument)     (* an index string that is not an integer *)
          end
      end) es [] 0 0.
 
@@ -85,7 +85,7 @@ Definition vector_update (v : vec S) (es : list (pidx * T S)) : option (gcode + 
          match pi with
          | Some i => if (i <? 0)%Z then Some (inl GInvalidArgument)
                      else go t ((Z.to_nat i, x) :: acc) (Nat.max size (Datatypes.S (Z.to_nat i)))
-         | None => Some (inl GUnknown)
+         | None => Some (inl GInvalidArgument)
          end
      end) es [] 0.
 
